@@ -220,6 +220,40 @@ INFO = {
  ('12','C16','m2'): ("sample reads its slot under the read lock and empties it only after the hand-over: a second trigger while the previous sample is still being delivered re-delivers the item", ['C03']),
  ('12','C19','m2'): ("arrival numbering with an off-by-one admits the first item after the terminal: a thread already holds the subscriber while another delivers the terminal", ['C01']),
  ('3','C14','m2'): ("amb's winner cell hoisted out of the per-subscription closure: a second subscription in which a source in a different position signals first", []),
+ ('13','C03','m1'): ("zip peeks the queue heads, emits the tuple and pops afterwards: the subscriber's callback feeds the next item into a zipped source from inside the delivery (or two threads both see all queues filled)", ['C11']),
+ ('13','C03','m2'): ("skip_until opens its gate when the trigger completes: a trigger that ends without ever emitting (empty, take(0), a subject completed silently), then source items", []),
+ ('13','C04','m1'): ("retry_when clears its (shared) predicate on the give-up branch: one subscription ends by giving up, then the same value is subscribed again (directly or through an outer retry) and its source fails", ['C14', 'C07']),
+ ('13','C04','m2'): ("on_error_resume_next reports the already handled error when the fallback observable itself fails with a different one", []),
+ ('13','C05','m1'): ("Drop for Using skips the unsubscribe while the thread is panicking: the guard's scope is left by unwinding", []),
+ ('13','C05','m2'): ("FunctionWrapper::clear uses try_write and gives up when contended: unsubscribe collides with an emitting thread's read lock on the next slot", []),
+ ('13','C06','m1'): ("take_while completes downstream before it lets its source go (sink_complete_force): visible only from inside the subscriber's complete callback (re-entrant emission, or a probe there)", []),
+ ('13','C06','m2'): ("skip_until marks its trigger complete instead of unsubscribing it once the gate has opened: a trigger that goes on after its first item (subject, interval, repeat)", ['C15']),
+ ('13','C07','m1'): ("switch_on_next keeps the read guard of its `emitted` cell across the downstream call (match scrutinee): the subscriber emits into the target from inside a source item's delivery", []),
+ ('13','C07','m2'): ("from_iter's producer loop uses filter instead of take_while on is_subscribed: an iterator without an end under an operator that ends the stream early", ['C06']),
+ ('13','C08','m1'): ("the worker takes the whole pending queue with mem::take and runs the batch outside the lock: two tasks pending when the worker dequeues, then abort while a non-last task of the batch runs", ['C15']),
+ ('13','C08','m2'): ("post runs the task in place when called on the scheduler's own worker thread: a task posts to its own scheduler (nested, overtakes queued tasks, runs after abort)", ['C09']),
+ ('13','C09','m1'): ("post from the scheduler's own worker runs in place: a subscriber callback behind observe_on emits back into its source while another event is queued", ['C08']),
+ ('13','C09','m2'): ("observe_on's `failed` flag lives per observable value: one subscription sees an upstream error, then the same value is subscribed again (by hand or through retry)", ['C14']),
+ ('13','C10','m1'): ("BehaviorSubject goes live in the same step as it takes the first hand-over batch: a push during the hand-over creates a backlog, a further push while that backlog is being delivered overtakes it", ['C12']),
+ ('13','C10','m2'): ("ReplaySubject sets the per-subscriber replay mark from a second read of the history length after the replay: a push that lands while the joiner is being handed a non-empty history is dropped as covered", ['C12']),
+ ('13','C11','m1'): ("zip peeks, emits, pops afterwards: input A pushes an item while input B's thread is still inside the subscriber delivering tuple k", ['C03']),
+ ('13','C11','m2'): ("flat_map releases its (shared) mapping function when the outer source completes: the same value is subscribed again after a completion, or two subscriptions are live and one's outer source completes", ['C14']),
+ ('13','C12','m1'): ("BehaviorSubject's hand-over loop takes the buffer and goes live in one step: two pushes buffered during the hand-over, a third push while the first buffered item is in the callback", ['C10']),
+ ('13','C12','m2'): ("ReplaySubject's per-subscriber mark becomes a high-water mark in the live branch: producer A appends, B appends, B broadcasts, A broadcasts (dropped for live observers)", []),
+ ('13','C13','m1'): ("Subject reads the observer count for its hooks under a second lock after the insert / removal: two first subscribers of ref_count()/replay() register back to back, nobody is told 1", []),
+ ('13','C13','m2'): ("publish builds its forwarding Observer once: connect, disconnect (or a terminal), connect again - the second connect does nothing", []),
+ ('13','C14','m1'): ("scan clears its (shared) accumulator function after an upstream error: an earlier subscription ended with an error, the same value is subscribed again and delivers two items", ['C07']),
+ ('13','C14','m2'): ("debounce builds its scheduler when the operator is built: all subscriptions of the value share one worker, queue and abort flag - a second subscription while the first lives or after it ended", ['C15', 'C16']),
+ ('13','C15','m1'): ("timer with a zero duration fires in place after the scheduler was created and never aborts it: Duration::ZERO", []),
+ ('13','C15','m2'): ("debounce keeps its value lock across the delivery (if-let temporary): the subscriber - on the worker - pushes into the debounced subject from its callback, the worker blocks on its own lock and never sees the abort", ['C07']),
+ ('13','C16','m1'): ("sample clears its cell only after the hand-on: a second trigger notification while the item is being delivered (re-entrant trigger, two trigger threads)", ['C03']),
+ ('13','C16','m2'): ("debounce flushes a pending item at completion by reading the cell without taking it: the worker's tick lands while the subscriber is still inside next for the flushed item (slow consumer)", []),
+ ('13','C17','m1'): ("switch_on_next marks the source observer complete instead of unsubscribing it once the target has taken over: target emits, source emits once more, the stream ends", ['C06']),
+ ('13','C17','m2'): ("Subscription::unsubscribe returns early when !is_subscribed(): directly on a source, terminal first, then unsubscribe, and something keeps the Observer reachable (a callback holding its own Subscription)", ['C05']),
+ ('13','C18','m1'): ("poll moves the error out of the shared state with take(): the future was cloned, one handle is polled to Ready(Err), another one afterwards", []),
+ ('13','C18','m2'): ("Observer::error / complete each clear the other terminal's slot before claiming their own: a completion and an error from two source threads cancel each other and the future never becomes ready", ['C19', 'C01']),
+ ('13','C19','m1'): ("fn_next no longer checks the terminated flag and Subject::error/complete hand out the terminal before clearing the map: Subject::next from a second thread after A's terminal returned while B's terminal callback still runs", ['C01', 'C10']),
+ ('13','C19','m2'): ("terminated becomes a phase that lets a repeat of the same terminal kind through, and call_and_clear_if_available calls first and clears afterwards: two errors from two threads, the second while the first callback runs", ['C01']),
 }
 
 def rows(path):
